@@ -20,6 +20,12 @@ purpose: `solve` then only *decides* whether the imposed values null the entry, 
 plausible circuit with a wrong matrix.  `solve.py: solve` itself is also run on exactly representable functions and
 compared with its Lean model (`Model/C12Solve.lean`, op `solve` of the driver).
 
+The retry loop (`while count < max_try`) is observed attempt by attempt (`_AttemptLog`, `judge_attempts`): blocks with a
+bounded non-periodic parameter make single attempts fail after they have solved cells, a later attempt succeeds; every
+attempt must start from the requested matrix and leave the shared array (the caller's matrix) untouched (model `retry`).
+Nearly structured matrices (`near`: entries ≫ precision next to a pivot of modulus 1 to second order), negligible
+non-zero entries (`dust`) and a block / Matrix object that already served an earlier request are generated on purpose.
+
 `None` is counted; it is a violation only for the blocks the elimination scheme is documented with
 (`catalog["mzi phase last"]`, `BS(θ)//PS(φ)`), with unrestricted constraints.
 """
@@ -43,11 +49,14 @@ from . import core
 
 UNIVERSAL = ("mzi_last", "bs_ps")
 BLOCK_NAMES = ["mzi_last", "bs_ps", "bs", "bsphase_ps", "bsH_ps", "bsRy_ps", "bsphase2_ps", "mzi_first", "bsH_phibl",
-               "bsH_fixed", "bs_fixed", "bsnp_ps", "bs_psnp", "mzi_np"]
+               "bsH_fixed", "bs_fixed", "bsnp_ps", "bs_psnp", "mzi_np", "bsHnp_ps"]
 NO_FREE_PARAM = ("bsH_fixed", "bs_fixed")          # blocks without any free parameter: `solve` gets x0 == []
 # blocks with a bounded NON-periodic parameter: `bounds` reach L-BFGS-B, which regularly ends on a bound, so a
 # decomposition attempt is abandoned somewhere in the middle and the retry loop of Circuit.decomposition starts again
-BOUNDED = ("bsnp_ps", "bs_psnp", "mzi_np")
+BOUNDED = ("bsnp_ps", "bs_psnp", "mzi_np", "bsHnp_ps")
+# … of which those whose horizontal inverse stays inside the declared range (BS.H keeps theta, a periodic phi may be
+# negated): the only ones combined with inverse_h
+BOUNDED_H_OK = ("bsHnp_ps",)
 
 
 # ------------------------------------------------------------------------------------------------
@@ -83,6 +92,11 @@ def make_block(name):
         th = P("theta", min_v=0, max_v=math.pi)
         b = BS(theta=th) // (1, PS(phi=P("phi")))
         th.set_periodic(False)        # (the BS constructor forces the flag to True: set it afterwards)
+        return b
+    if name == "bsHnp_ps":            # Hadamard-convention BS with a bounded angle: its horizontal inverse keeps theta
+        th = P("theta", min_v=0, max_v=math.pi)
+        b = BS.H(theta=th) // (1, PS(phi=P("phi")))
+        th.set_periodic(False)
         return b
     if name == "bs_psnp":             # phase limited to [0, 2pi] without wrap-around
         ph = P("phi")
@@ -894,7 +908,7 @@ def gen_spec(rng, max_n, i):
 
 
 NFREE = {"mzi_last": 2, "bs_ps": 2, "bs": 1, "bsphase_ps": 2, "bsH_ps": 2, "bsRy_ps": 2, "bsphase2_ps": 2,
-         "mzi_first": 2, "bsH_phibl": 2, "bsH_fixed": 0, "bs_fixed": 0, "bsnp_ps": 2, "bs_psnp": 2, "mzi_np": 2}
+         "mzi_first": 2, "bsH_phibl": 2, "bsH_fixed": 0, "bs_fixed": 0, "bsnp_ps": 2, "bs_psnp": 2, "mzi_np": 2, "bsHnp_ps": 2}
 SPECIAL_ANGLES = [0.0, math.pi, math.pi / 2]
 
 
@@ -991,9 +1005,17 @@ def retry_scenario(rng, spec):
     spec["kind"] = rng.choice(["haar", "haar", "haar", "sparse", "blockdiag", "rowperm", "lowerband", "near", "dust"])
     spec["max_try"] = rng.choice([8, 12, 12, 16])
     spec.pop("constraints", None)
-    # inverse_h negates every phase / angle: not representable inside a non-periodic range that starts at 0 (the
-    # parameter refuses the value, ValueError) — a contradictory request, not generated; inverse_v is
-    spec.pop("h", None)
+    # inverse_h negates phases / Rx angles: not representable inside a non-periodic range that starts at 0 (the
+    # parameter refuses the value, ValueError) — a contradictory request, not generated; inverse_v is, and inverse_h
+    # with the block whose inverse stays in range
+    if rng.random() < 0.3:
+        spec["block"] = rng.choice(BOUNDED_H_OK)
+        if rng.random() < 0.6:
+            spec["h"] = True
+    if spec["block"] not in BOUNDED_H_OK:
+        spec.pop("h", None)
+    else:
+        spec.pop("v", None)          # BS.H: the vertical inverse is theta -> 2pi - theta, outside [0, pi]
     if rng.random() < 0.5:
         spec["phase"] = True
     if rng.random() < 0.15:
@@ -1135,6 +1157,11 @@ def handle(chk, obs, pool_observe=observe, do_shrink=True):
     if res is not None:
         kind, sig, what = res
         chk.count("failures", f"{sig}|{spec['block']}|v={int(bool(spec.get('v')))} h={int(bool(spec.get('h')))}")
+        # one defect, one report: a concrete failing input supersedes a bare model/code disagreement of the same signature
+        if kind == "violation":
+            chk.failures[:] = [f for f in chk.failures if not (f[0] == "broken" and f[1] == sig)]
+        elif any(f[0] == "violation" and f[1] == sig for f in chk.failures):
+            return
         first = not any(f[1] == sig for f in chk.failures)
         small = shrink(chk, spec, sig, pool_observe) if (do_shrink and first) else spec
         small = dict(small)
@@ -1297,7 +1324,8 @@ def _init_worker():
 def run(chk: core.Check):
     chk.rule = ("random configurations (matrix kind × size × block × phase layer × PERM substitution × "
                 "ignore_identity_block × inverse_v/h × merge × constraints (free / partial / fully imposed, alone or with "
-                "fallbacks, on Haar matrices and on meshes of the block at the imposed values) × precision); distinct = "
+                "fallbacks, on Haar matrices and on meshes of the block at the imposed values) × precision × blocks with a bounded "
+                "non-periodic parameter and max_try 8..16 (retry loop) × reuse of the block / Matrix object); distinct = "
                 "distinct option signatures; non-trivial = a circuit was returned for n ≥ 3; plus direct calls of "
                 "solve.py: solve compared with its Lean model (extra.solve_cases)")
     chk.assumptions = [
@@ -1308,9 +1336,9 @@ def run(chk: core.Check):
         "tolerance precision·4·(#cells+1): every cell leaves a residue ≤ precision (see tol_of)",
         "the numerical minimiser inside solve is an oracle of the solve model (its observed result is replayed); "
         "res.fun is taken to be f(res.x)",
-        "blocks with a bounded non-periodic parameter (used to make single attempts of the retry loop fail) are not "
-        "combined with inverse_h: the inverted component needs the negated value, which the declared range excludes "
-        "(Parameter raises ValueError)",
+        "blocks with a bounded non-periodic parameter (used to make single attempts of the retry loop fail) are combined "
+        "only with the inversion options whose inverted component stays inside the declared range (Rx blocks: inverse_v; "
+        "the BS.H block: inverse_h); otherwise Parameter refuses the value (ValueError), a contradictory request",
         "the attempts of the retry loop are observed through wrappers around decomposition.decompose_triangle / "
         "decomposition.solve that call the original functions unchanged",
     ]
